@@ -12,7 +12,7 @@ Mark(k) == TLCSet(42, IF TLCGet(42) > k THEN TLCGet(42) ELSE k)
 IsEvent(ev) == l <= Len(Trace) /\ Trace[l].ev = ev /\ l' = l + 1
 TInit == v = "none" /\ p = "ok" /\ f = "none" /\ lvl = 0 /\ ld = "grub" /\ cf = "ok" /\ prior = "none" /\ lg = "sample" /\ pc = "done" /\ result = "idle" /\ l = 1 /\ TLCSet(42, 1)
 TCall == /\ IsEvent("Call") /\ pc = "done"
-         /\ {Trace[l].measured[i] : i \in DOMAIN Trace[l].measured} = Measured
+         /\ {Trace[l].measured[i] : i \in DOMAIN Trace[l].measured} = MeasuredBy(Trace[l].input.lg)
          /\ v' = Trace[l].input.v /\ p' = Trace[l].input.p /\ f' = Trace[l].input.f /\ lvl' = Trace[l].input.lvl
          /\ ld' = Trace[l].input.ld /\ cf' = Trace[l].input.cf
          /\ prior' = Trace[l].input.prior /\ lg' = Trace[l].input.lg
